@@ -171,7 +171,10 @@ fn check_records(ctx: &Ctx, label: &str, records: &[Record], recs: &[Vec<u8>], p
 pub fn check_case(ctx: &Ctx, c: &Case) -> &'static str {
     let (bytes, recs, payloads) = build(c);
     let wit = || c.json();
-    let file = File::new(bytes.clone());
+    // odd-sized files are held in a vector with spare capacity (capacity is not part of the value)
+    let mut held = Vec::with_capacity(bytes.len() + if bytes.len() % 2 == 1 { 4096 } else { 0 });
+    held.extend_from_slice(&bytes);
+    let file = File::new(held);
     if file.data() != &bytes {
         ctx.fail("file:data_changed", || format!("{:?}", c), wit);
     }
